@@ -125,6 +125,13 @@ impl<Write: WriteHalf> WriteConnection<Write> {
         &self.socket
     }
 
+    /// Verification hook: `(buffer length, pos)`.
+    #[cfg(zlink_verif)]
+    #[doc(hidden)]
+    pub fn verif_state(&self) -> (usize, usize) {
+        (self.buffer.len(), self.pos)
+    }
+
     async fn write<T>(&mut self, value: &T) -> crate::Result<()>
     where
         T: Serialize + ?Sized + Debug,
